@@ -1,0 +1,137 @@
+//go:build verif
+
+// Copyright 2025 StreamNative, Inc.
+//
+// Licensed under the Apache License, Version 2.0 (the "License");
+// you may not use this file except in compliance with the License.
+// You may obtain a copy of the License at
+//
+//     http://www.apache.org/licenses/LICENSE-2.0
+//
+// Unless required by applicable law or agreed to in writing, software
+// distributed under the License is distributed on an "AS IS" BASIS,
+// WITHOUT WARRANTIES OR CONDITIONS OF ANY KIND, either express or implied.
+// See the License for the specific language governing permissions and
+// limitations under the License.
+
+package balancer
+
+import (
+	"context"
+	"log/slog"
+	"sync"
+	"time"
+
+	"github.com/emirpasic/gods/v2/sets/linkedhashset"
+
+	"github.com/oxia-db/oxia/coordinator/metadata"
+	"github.com/oxia-db/oxia/coordinator/model"
+	"github.com/oxia-db/oxia/coordinator/selectors/single"
+)
+
+// Verification harness: one rebalancing round of the scheduler over a cluster configuration and a cluster
+// status given as values; the swaps it proposes are returned instead of being applied.
+
+type verifConfig struct {
+	cfg model.ClusterConfig
+}
+
+func (*verifConfig) Close() error                 { return nil }
+func (d *verifConfig) Load() *model.ClusterConfig { return &d.cfg }
+func (d *verifConfig) Nodes() *linkedhashset.Set[string] {
+	nodes := linkedhashset.New[string]()
+	for i := range d.cfg.Servers {
+		nodes.Add(d.cfg.Servers[i].GetIdentifier())
+	}
+	return nodes
+}
+func (d *verifConfig) NodesWithMetadata() (*linkedhashset.Set[string], map[string]model.ServerMetadata) {
+	return d.Nodes(), d.cfg.ServerMetadata
+}
+func (d *verifConfig) NamespaceConfig(namespace string) (*model.NamespaceConfig, bool) {
+	for i := range d.cfg.Namespaces {
+		if d.cfg.Namespaces[i].Name == namespace {
+			return &d.cfg.Namespaces[i], true
+		}
+	}
+	return nil, false
+}
+func (d *verifConfig) Node(id string) (*model.Server, bool) {
+	for i := range d.cfg.Servers {
+		if d.cfg.Servers[i].GetIdentifier() == id {
+			return &d.cfg.Servers[i], true
+		}
+	}
+	return nil, false
+}
+
+type verifStatus struct {
+	status *model.ClusterStatus
+}
+
+func (d *verifStatus) Load() *model.ClusterStatus { return d.status }
+func (d *verifStatus) LoadWithVersion() (*model.ClusterStatus, metadata.Version) {
+	return d.status, metadata.Version("0")
+}
+func (*verifStatus) Swap(*model.ClusterStatus, metadata.Version) bool       { return true }
+func (*verifStatus) Update(*model.ClusterStatus)                            {}
+func (*verifStatus) UpdateShardMetadata(string, int64, model.ShardMetadata) {}
+func (*verifStatus) DeleteShardMetadata(string, int64)                      {}
+
+
+// VerifSwap is one proposed swap.
+type VerifSwap struct {
+	Shard int64
+	From  model.Server
+	To    model.Server
+}
+
+// VerifRebalanceRound runs rebalanceEnsemble once and collects the proposed swaps (each is acknowledged at once).
+func VerifRebalanceRound(cfg model.ClusterConfig, status *model.ClusterStatus, timeout time.Duration) (swaps []VerifSwap, finished bool) {
+	ctx, cancel := context.WithCancel(context.Background())
+	defer cancel()
+	nb := &nodeBasedBalancer{
+		WaitGroup:          &sync.WaitGroup{},
+		Logger:             slog.Default(),
+		ctx:                ctx,
+		cancel:             cancel,
+		scheduleInterval:   time.Hour,
+		quarantineTime:     time.Hour,
+		statusResource:     &verifStatus{status: status},
+		configResource:     &verifConfig{cfg: cfg},
+		selector:           single.NewSelector(),
+		loadRatioAlgorithm: single.DefaultShardsRank,
+		actionCh:           make(chan Action, 1000),
+		triggerCh:          make(chan struct{}, 1),
+	}
+	done := make(chan struct{})
+	go func() {
+		defer close(done)
+		nb.rebalanceEnsemble()
+	}()
+	take := func(a Action) {
+		if ac, ok := a.(*SwapNodeAction); ok {
+			swaps = append(swaps, VerifSwap{Shard: ac.Shard, From: ac.From, To: ac.To})
+			ac.Done()
+		}
+	}
+	deadline := time.After(timeout)
+	for {
+		select {
+		case a := <-nb.actionCh:
+			take(a)
+		case <-done:
+			for {
+				select {
+				case a := <-nb.actionCh:
+					take(a)
+					continue
+				default:
+				}
+				return swaps, true
+			}
+		case <-deadline:
+			return swaps, false
+		}
+	}
+}
